@@ -160,7 +160,27 @@ func runC03(r *core.Run) {
 			}
 			// the root a relying party would trust for this endorsement
 			h := a.CheckHealth(a.Now)
+			// sometimes a concurrent operator rotates the key in the middle of signing
+			interleaved := false
+			if !q.ViaCLI && rots < 6 && r.Chance(12, "rotate-during-signing?") {
+				q.Interleave = func() {
+					interleaved = true
+					if err, _ := a.Rotate(worlda.RotArgs{}); err == nil {
+						rots++
+						lastSerial++
+						usedSerials = append(usedSerials, lastSerial)
+						shape += ",rot-during-signing"
+						r.Probe("rotated-during-signing")
+					}
+				}
+			}
 			_, err := Endorse(r, a, vcs, q, scratch)
+			if err != nil && interleaved {
+				// failing safe (nothing emitted) under a concurrent rotation is fine: the property
+				// speaks about what the pipeline writes
+				r.Probe("endorse-refused-under-concurrent-rotation")
+				continue
+			}
 			if err != nil {
 				r.Fail("genuine-rejected", "endorse-fails/"+shapeKey(shape), "%s history %s: the endorse pipeline fails on a healthy history: %v (health before: %s)", cfg, shape, err, h)
 				continue
